@@ -7,6 +7,7 @@ and whether it still carries its own labels and data.  Index semantics are taken
 generic == specific and the group-partition predicate are checked after every step.
 """
 import copy
+import os
 
 import numpy
 from hypothesis import strategies as st
@@ -189,6 +190,10 @@ def state_diff(a, b, ignore=()):
 # ------------------------------------------------------------------------------------------------------------------
 # strategy: a program
 # ------------------------------------------------------------------------------------------------------------------
+THOROUGH = os.environ.get("PBT_TIER") == "thorough"      # longer histories and larger axes in the thorough tier
+MAXSTEPS = 25 if THOROUGH else 8
+SIZES = [1, 2, 3, 3, 4, 5, 6, 8, 10] if THOROUGH else [1, 2, 3, 3, 4, 5, 6]
+
 OPS_NONMUT = ["select", "delete", "insert", "adjoin", "concat"]
 OPS_MUT = ["append", "remove", "incorp", "reorder", "sort", "group", "ungroup"]
 COUNTERPART = {"append": "adjoin", "remove": "delete", "incorp": "insert"}
@@ -199,12 +204,12 @@ RAW = st.integers(0, 10 ** 6)
 def program(draw, families):
     famname = draw(st.sampled_from(families))
     fam = FAMILIES[famname]
-    sizes = {k: draw(st.sampled_from([1, 2, 3, 3, 4, 5, 6])) for k in fam.labelled}
+    sizes = {k: draw(st.sampled_from(SIZES)) for k in fam.labelled}
     present = {}
     for k in fam.labelled:
         for lb in LABELS[k]:
             present[lb] = draw(st.sampled_from([True, True, True, False]))
-    nsteps = draw(st.integers(1, 8))
+    nsteps = draw(st.integers(1, MAXSTEPS))
     steps = []
     for _ in range(nsteps):
         op = draw(st.sampled_from(OPS_NONMUT + OPS_MUT + ["group", "sort", "reorder", "copy"]))
